@@ -26,6 +26,29 @@ pub enum Op {
 
 type Canon = Vec<(u64, u64, u32, u32)>; // key, value.0, value.1, rank
 
+/// What the harness itself knows from the operations issued so far (independent of the cache's bookkeeping):
+/// every value ever stored under a key, and when each key was last used.
+#[derive(Default, Clone)]
+pub struct Hist {
+	stored: Vec<(u64, Val)>,
+	tick: u64,
+	last_use: std::collections::BTreeMap<u64, u64>,
+	last_used: Option<u64>,
+}
+impl Hist {
+	fn used(&mut self, k: u64) {
+		self.tick += 1;
+		self.last_use.insert(k, self.tick);
+		self.last_used = Some(k);
+	}
+	/// keys currently held, in the order of their last use according to the issued operations
+	fn order_of(&self, held: &Canon) -> Vec<u64> {
+		let mut v: Vec<(u64, u64)> = held.iter().map(|e| (self.last_use.get(&e.0).copied().unwrap_or(0), e.0)).collect();
+		v.sort();
+		v.into_iter().map(|e| e.1).collect()
+	}
+}
+
 fn new_cache(capacity: usize) -> Cache {
 	Cache::with_maximum_size(capacity * (std::mem::size_of::<u64>() + std::mem::size_of::<Val>()))
 }
@@ -45,8 +68,11 @@ fn canon_of(c: &Cache) -> (usize, Canon) {
 
 /// Applies one operation to the real cache and checks every per-step clause of the property.
 /// Returns the list of failed clauses (signature, description).
-fn step(c: &mut Cache, capacity: usize, op: Op, stored: &mut Vec<(u64, Val)>) -> Vec<(String, String)> {
+fn step(c: &mut Cache, capacity: usize, op: Op, h: &mut Hist) -> Vec<(String, String)> {
 	let mut bad = vec![];
+	let just_used = h.last_used;
+	let mut uses_now: Option<u64> = None;
+	let stored = &mut h.stored;
 	let (_, before) = canon_of(c);
 	let present_before = |k: u64| before.iter().find(|e| e.0 == k).map(|e| (e.1, e.2));
 	// most recently used entry: unique maximal rank, if any entry exists
@@ -55,6 +81,7 @@ fn step(c: &mut Cache, capacity: usize, op: Op, stored: &mut Vec<(u64, Val)>) ->
 		Op::Add(k, ver) => {
 			stored.push((k, (k, ver)));
 			let r = c.add(k, (k, ver));
+			uses_now = Some(k);
 			// add returns the value now held for the key (the old one if the key was present)
 			if r.0 != k {
 				bad.push(("add-returns-foreign-value".into(), format!("add({k}) returned a value stored under key {}", r.0)));
@@ -62,6 +89,12 @@ fn step(c: &mut Cache, capacity: usize, op: Op, stored: &mut Vec<(u64, Val)>) ->
 		}
 		Op::Get(k) => {
 			let r = c.get(&k);
+			if r.is_some() {
+				uses_now = Some(k);
+			}
+			if r.is_some() && present_before(k).is_none() {
+				bad.push(("get-answers-a-key-the-cache-does-not-account-for".into(), format!("get({k}) returned {r:?} although the cache's own entry list does not hold the key (the size bound is evaded)")));
+			}
 			match (r, present_before(k)) {
 				(Some(v), _) if !stored.contains(&(k, v)) => bad.push((
 					"get-returns-value-never-stored-under-key".into(),
@@ -83,6 +116,7 @@ fn step(c: &mut Cache, capacity: usize, op: Op, stored: &mut Vec<(u64, Val)>) ->
 			match r {
 				Err(e) => bad.push(("get_or_set-fails-with-ok-loader".into(), format!("get_or_set({k}) failed: {e}"))),
 				Ok(v) => {
+					uses_now = Some(k);
 					if called {
 						stored.push((k, (k, ver)));
 						if v != (k, ver) {
@@ -116,6 +150,7 @@ fn step(c: &mut Cache, capacity: usize, op: Op, stored: &mut Vec<(u64, Val)>) ->
 			});
 			match r {
 				Ok(v) => {
+					uses_now = Some(k);
 					if called {
 						bad.push(("get_or_set-swallows-loader-error".into(), format!("get_or_set({k}) returned {v:?} although the loader failed")));
 					} else if !stored.contains(&(k, v)) {
@@ -146,66 +181,91 @@ fn step(c: &mut Cache, capacity: usize, op: Op, stored: &mut Vec<(u64, Val)>) ->
 	// eviction happened iff a key held before is no longer held
 	let evicted: Vec<u64> = before.iter().filter(|b| !after.iter().any(|a| a.0 == b.0)).map(|b| b.0).collect();
 	if !evicted.is_empty() && capacity >= 2 {
-		if let Some(m) = mru {
-			if evicted.contains(&m) {
-				bad.push((
-					format!("just-used-entry-evicted capacity={capacity}"),
-					format!("eviction during {op:?} removed key {m}, the most recently used entry (evicted {evicted:?}, capacity {capacity})"),
-				));
+		// the entry used by the previous operation (according to the operations issued, and, as a cross-check,
+		// according to the cache's own stamps) must survive this eviction
+		for (m, how) in [(just_used, "the entry the previous operation used"), (mru, "the entry with the newest access stamp")] {
+			if let Some(m) = m {
+				if evicted.contains(&m) && before.iter().any(|b| b.0 == m) {
+					bad.push((
+						format!("just-used-entry-evicted capacity={capacity}"),
+						format!("eviction during {op:?} removed key {m}, {how} (evicted {evicted:?}, capacity {capacity})"),
+					));
+					break;
+				}
 			}
 		}
+	}
+	if let Some(k) = uses_now {
+		h.used(k);
 	}
 	bad
 }
 
 /// Applies an operation without evaluating the oracle (used for the already-checked prefix).
-fn apply(c: &mut Cache, op: Op, stored: &mut Vec<(u64, Val)>) {
+fn apply(c: &mut Cache, op: Op, h: &mut Hist) {
+	let stored = &mut h.stored;
+	let mut uses_now = None;
 	match op {
 		Op::Add(k, ver) => {
 			stored.push((k, (k, ver)));
 			c.add(k, (k, ver));
+			uses_now = Some(k);
 		}
 		Op::Get(k) => {
-			c.get(&k);
+			if c.get(&k).is_some() {
+				uses_now = Some(k);
+			}
 		}
 		Op::GosOk(k, ver) => {
 			let mut called = false;
-			let _ = c.get_or_set(&k, || {
+			let r = c.get_or_set(&k, || {
 				called = true;
 				Ok((k, ver))
 			});
 			if called {
 				stored.push((k, (k, ver)));
 			}
+			if r.is_ok() {
+				uses_now = Some(k);
+			}
 		}
 		Op::GosErr(k) => {
-			let _ = c.get_or_set(&k, || Err(anyhow::anyhow!("loader failed")));
+			if c.get_or_set(&k, || Err(anyhow::anyhow!("loader failed"))).is_ok() {
+				uses_now = Some(k);
+			}
 		}
+	}
+	if let Some(k) = uses_now {
+		h.used(k);
 	}
 }
 
 /// Replays `hist` on a fresh real cache; the oracle is evaluated on the last operation only
 /// (every proper prefix is the history of an earlier transition and was checked there).
-pub fn run_history(capacity: usize, hist: &[Op]) -> (Canon, Vec<(String, String)>) {
+pub fn run_history(capacity: usize, hist: &[Op]) -> ((Canon, Vec<u64>), Vec<(String, String)>) {
 	let mut c = new_cache(capacity);
-	let mut stored = vec![];
+	let mut h = Hist::default();
 	let mut bad_last = vec![];
 	for (i, op) in hist.iter().enumerate() {
 		if i + 1 == hist.len() {
-			bad_last = step(&mut c, capacity, *op, &mut stored);
+			bad_last = step(&mut c, capacity, *op, &mut h);
 		} else {
-			apply(&mut c, *op, &mut stored);
+			apply(&mut c, *op, &mut h);
 		}
 	}
-	stored.sort_unstable();
-	stored.dedup();
-	(canon_of(&c).1, bad_last)
+	// the de-duplication key: the cache's own entries and stamps' ranks, plus the key the last operation used
+	// according to the operations issued (determined by the stamps while the cache keeps them right; an
+	// implementation that does not refresh them is still explored through the states that differ)
+	let canon = canon_of(&c).1;
+	let _ = h.order_of(&canon);
+	let order = vec![h.last_used.map(|k| k + 1).unwrap_or(0)];
+	((canon, order), bad_last)
 }
 
 #[derive(Clone, Debug)]
 struct St {
 	hist: Vec<Op>,
-	canon: Canon,
+	canon: (Canon, Vec<u64>),
 }
 impl PartialEq for St {
 	fn eq(&self, o: &St) -> bool {
@@ -430,7 +490,7 @@ pub fn run(ctx: Arc<Ctx>) {
 	users(&ctx);
 	ctx.rule("in-tree users: every sequence of <= 2 (quick) / 3 (thorough) lookups over 9 coordinates on one opened versatiles / PMTiles reader (valid containers incl. one and two leaf levels; containers with damaged index blocks whose loaders fail) answers like a fresh reader");
 	ctx.rule(
-		"stateright BFS over the real LimitedCache<u64,(u64,u32)>; state = op history, dedup key = sorted (key,value,stamp rank) from verif_snapshot; \
+		"stateright BFS over the real LimitedCache<u64,(u64,u32)>; state = op history, dedup key = sorted (key,value,stamp rank) from verif_snapshot + the key the last operation used; recency for the 'just used' clause is kept by the harness from the operations issued, not read from the cache; plus every history of length <= 5..6 (thorough 5..7) at capacities 1..3 (thorough 1..5) without de-duplication; \
 		 alphabet get/add/get_or_set(ok|err) x keys x value versions; non-trivial = distinct canonical states in which the cache is full (next insertion evicts)",
 	);
 	ctx.assume("states with equal canonical form (key,value,rank-of-stamp incl. ties) have equal futures: cleanup only compares stamps, new stamps exceed all old ones");
@@ -476,6 +536,65 @@ pub fn run(ctx: Arc<Ctx>) {
 			}
 		}
 	}
+	// Every operation sequence up to a depth, without state de-duplication: the closure search above merges states
+	// that the cache's own bookkeeping shows as equal, which is only sound while the cache has no memory outside
+	// that bookkeeping. Here every history is run as it is (oracle on its last operation).
+	{
+		let plans: Vec<(usize, Vec<u64>, usize)> = ctx.tier.pick(
+			vec![(1, vec![0, 1, 2], 6), (2, vec![0, 1, 2, 3], 6), (3, vec![0, 1, 2, 3, 4], 5)],
+			vec![(1, vec![0, 1, 2], 7), (2, vec![0, 1, 2, 3], 7), (3, vec![0, 1, 2, 3, 4], 6), (4, vec![0, 1, 2, 3, 4, 5], 6), (5, vec![0, 1, 2, 3, 4, 5, 6], 5)],
+		);
+		let mut total = 0u64;
+		for (cap, keys, depth) in plans {
+			let mut alpha: Vec<Op> = vec![];
+			for &k in &keys {
+				alpha.extend([Op::Get(k), Op::Add(k, 0), Op::GosOk(k, 1), Op::GosErr(k)]);
+			}
+			// one worker per first two operations
+			let firsts: Vec<(Op, Op)> = alpha.iter().flat_map(|a| alpha.iter().map(move |b| (*a, *b))).collect();
+			let counter = std::sync::atomic::AtomicU64::new(0);
+			let (ctxr, fr, ar, cr): (&Ctx, _, _, _) = (&ctx, &firsts, &alpha, &counter);
+			crate::par::par_for(firsts.len(), |fi| {
+				let mut n = 0u64;
+				// iterative DFS over the suffixes; each node replays its history on a fresh cache
+				let mut stack: Vec<Vec<Op>> = vec![vec![fr[fi].0, fr[fi].1]];
+				if fi < ar.len() {
+					stack.push(vec![ar[fi]]);
+				}
+				while let Some(h) = stack.pop() {
+					let mut c = new_cache(cap);
+					let mut m = Hist::default();
+					let mut bad = vec![];
+					for (i, op) in h.iter().enumerate() {
+						if i + 1 == h.len() {
+							bad = step(&mut c, cap, *op, &mut m);
+						} else {
+							apply(&mut c, *op, &mut m);
+						}
+					}
+					n += 1;
+					for (sig, desc) in bad {
+						ctxr.violation(&sig, &desc, json!({"capacity": cap, "history": h}));
+					}
+					if h.len() >= 2 && h.len() < depth {
+						for op in ar.iter() {
+							let mut h2 = h.clone();
+							h2.push(*op);
+							stack.push(h2);
+						}
+					}
+				}
+				cr.fetch_add(n, std::sync::atomic::Ordering::Relaxed);
+			});
+			let n = counter.load(std::sync::atomic::Ordering::Relaxed);
+			ctx.evals(n);
+			ctx.transition(n);
+			ctx.trace(n);
+			ctx.outcome_n(&format!("every history of length <= {depth} at capacity {cap} over {} keys (no de-duplication)", keys.len()), n);
+			total += n;
+		}
+		ctx.extra("histories_without_deduplication", json!(total));
+	}
 	ctx.extra("closure_capacities", json!(closure_caps));
 	ctx.extra("bounded_capacities", json!(big_caps));
 	ctx.extra("bounded_depth", json!(depth));
@@ -503,7 +622,7 @@ fn count_full_states(ctx: &Arc<Ctx>, caps: &[usize]) {
 				h2.push(*op);
 				let (canon, _) = run_history(cap, &h2);
 				if seen.insert(canon.clone()) {
-					if canon.len() == cap {
+					if canon.0.len() == cap {
 						ctx.nontrivial(fnv_str(&format!("{cap}:{canon:?}")));
 					}
 					frontier.push(h2);
@@ -526,7 +645,7 @@ pub fn replay(ctx: Arc<Ctx>, case: &Value) {
 	let mut obs = vec![];
 	for _ in 0..2 {
 		let mut c = new_cache(capacity);
-		let mut stored = vec![];
+		let mut stored = Hist::default();
 		let mut all_bad = vec![];
 		for op in &hist {
 			let b = step(&mut c, capacity, *op, &mut stored);
